@@ -1,4 +1,6 @@
+pub mod indep;
 pub mod runner;
+pub mod sim;
 pub mod tape;
 
 pub use runner::{Ctx, Fail, Part, PhaseResult, Prop, RunEnv, Tier};
